@@ -609,6 +609,7 @@ theorem K_createOffer {pc : PC} (hK : K pc) : K (createOffer pc).1 := by
           (fun l r h => any_assignMids _ _ (by rwa [any_markDescribed] at h)) (fun h => by rw [h]; rfl)
       | split)
 
+/-- CreateAnswer narrows directions, but only ever succeeds in have-remote-offer -/
 theorem K_createAnswer {pc : PC} (hK : K pc) : K (createAnswer pc).1 := by
   unfold createAnswer
   split
@@ -617,10 +618,13 @@ theorem K_createAnswer {pc : PC} (hK : K pc) : K (createAnswer pc).1 := by
     · exact hK
     · split
       · exact hK
-      · split
+      · rename_i hsig
+        have hs : pc.sig = .haveRemoteOffer := by simpa using hsig
+        split
         · exact hK
-        · exact K_of_redescribed hK pc.nextMid _ pc.lastOffer _
-            (fun l r h => by rwa [any_markDescribed] at h) (fun h => by rw [h]; rfl)
+        · exact K_of_not_stable (by
+            show pc.sig ≠ .stable
+            rw [hs]; decide)
 
 theorem K_of_setDescription {pc pc1 : PC} {isLocal : Bool} {d : Desc}
     (h : setDescription pc isLocal d = some pc1) : pc1.sig ≠ .stable ∨ pending pc1 := by
